@@ -315,26 +315,10 @@ fn append_character_string(out: &mut Vec<u8>, ascii_str: &str) -> Result<(), Mdn
         return Err(MdnsResponseError::NonAsciiMultiaddr);
     }
 
-    if !ascii_str.bytes().any(|c| c == b' ') {
-        out.extend_from_slice(ascii_str.as_bytes());
-        return Ok(());
-    }
-
-    out.push(b'"');
-
-    for &chr in ascii_str.as_bytes() {
-        if chr == b'\\' {
-            out.push(b'\\');
-            out.push(b'\\');
-        } else if chr == b'"' {
-            out.push(b'\\');
-            out.push(b'"');
-        } else {
-            out.push(chr);
-        }
-    }
-
-    out.push(b'"');
+    // On the wire a `<character-string>` is a length octet followed by that many raw octets.
+    // Quoting and escaping only exist in the zone file presentation format; applying them here
+    // made the string longer than the length octet written by `append_txt_record` announces.
+    out.extend_from_slice(ascii_str.as_bytes());
     Ok(())
 }
 
